@@ -44,7 +44,7 @@ import (
 
 func TestMain(m *testing.M) { ev.Main(m) }
 
-var rec = ev.For("C28", "rapid-drawn histories: 2-6 fresh variables on an in-process server, one monitor.NodeMonitor subscription (callback or channel flavour, publishing interval 50-100 ms), steps AddNodes / RemoveNodes / write bursts by 2-3 other clients (value = nodeIndex*1e6+k; a burst may keep running during the following Add/Remove steps) / short pauses; non-trivial = some burst had >= 2 writers and at least one delivered message carried a written (non-initial) value; distinct by hash of the drawn history")
+var rec = ev.For("C28", "rapid-drawn histories: 2-6 fresh variables on an in-process server, one monitor.NodeMonitor subscription (callback or channel flavour, publishing interval 50-100 ms), steps AddNodes / RemoveNodes / write bursts by 2-3 other clients (value = nodeIndex*1e6+k; a burst may keep running during the following Add/Remove steps) / short pauses; one case in eight is 'wide': 101-260 variables, contiguous runs of them added/removed in one call and changed by 1-6 back-to-back WriteRequests that each carry the whole run; non-trivial = (some burst had >= 2 writers, or one WriteRequest changed > 100 monitored nodes) and at least one delivered message carried a written (non-initial) value; distinct by hash of the drawn history")
 
 const million = 1_000_000
 
@@ -110,7 +110,70 @@ func subset(t *rapid.T, n int, label string, min int) []int {
 	return out
 }
 
+// span draws a contiguous run of node indices (wide cases: one draw per set
+// instead of one per node).
+func span(t *rapid.T, n int, label string) []int {
+	lo, l := 0, n
+	if rapid.IntRange(0, 2).Draw(t, label+"Part") == 0 {
+		lo = rapid.IntRange(0, n-1).Draw(t, label+"Lo")
+		l = rapid.IntRange(1, n).Draw(t, label+"Len")
+	}
+	var out []int
+	for i := lo; i < n && i < lo+l; i++ {
+		out = append(out, i)
+	}
+	return out
+}
+
+// genWide: more monitored items on the one subscription than its server side
+// notification queue holds (100), nodes added in one call and changed by
+// WriteRequests that carry many nodes (added after seeded change C28-B).
+func genWide(t *rapid.T) Case {
+	c := Case{
+		Vars:       rapid.IntRange(101, 260).Draw(t, "wideVars"),
+		Flavour:    rapid.SampledFrom([]string{"callback", "chan"}).Draw(t, "flavour"),
+		IntervalMs: rapid.SampledFrom([]int{50, 60, 80, 100}).Draw(t, "interval"),
+		Writers:    2,
+	}
+	if rapid.Bool().Draw(t, "initialAll") {
+		c.Initial = span(t, c.Vars, "initial")
+	}
+	k := int64(0)
+	nsteps := rapid.IntRange(2, 6).Draw(t, "nsteps")
+	for i := 0; i < nsteps; i++ {
+		var s Step
+		switch x := rapid.IntRange(0, 9).Draw(t, "op"); {
+		case x < 3 || (i == 0 && len(c.Initial) == 0):
+			s.Op = "add"
+			s.Nodes = span(t, c.Vars, "addNode")
+		case x < 4:
+			s.Op = "remove"
+			s.Nodes = span(t, c.Vars, "removeNode")
+		case x < 9:
+			s.Op = "batch"
+			nodes := span(t, c.Vars, "batchNode")
+			reps := rapid.IntRange(1, 6).Draw(t, "batchReps")
+			for r := 0; r < reps; r++ {
+				ws := make([]W, len(nodes))
+				for j, n := range nodes {
+					k++
+					ws[j] = W{Node: n, Val: int64(n)*million + k}
+				}
+				s.Writes = append(s.Writes, ws)
+			}
+		default:
+			s.Op = "pause"
+			s.Ms = rapid.IntRange(0, 150).Draw(t, "pauseMs")
+		}
+		c.Steps = append(c.Steps, s)
+	}
+	return c
+}
+
 func genCase(t *rapid.T) Case {
+	if rapid.IntRange(0, 7).Draw(t, "wide") == 0 {
+		return genWide(t)
+	}
 	c := Case{
 		Vars:       rapid.IntRange(2, 6).Draw(t, "vars"),
 		Flavour:    rapid.SampledFrom([]string{"callback", "chan"}).Draw(t, "flavour"),
@@ -429,6 +492,7 @@ func execute(c Case, fresh bool) (res result, err error) {
 		classes   = map[string]bool{}
 		removed   = make([]bool, c.Vars) // node was removed at least once
 		multiW    bool
+		batchWide bool
 		asyncLive bool
 	)
 	join := func() { wg.Wait(); asyncLive = false }
@@ -520,6 +584,38 @@ func execute(c Case, fresh bool) (res result, err error) {
 				asyncLive = true
 			} else {
 				join()
+			}
+		case "batch":
+			// every inner list is ONE WriteRequest, sent back to back by writer 0
+			join()
+			for _, ws := range st.Writes {
+				req := &ua.WriteRequest{}
+				nmonW := 0
+				for _, w := range ws {
+					va, _ := ua.NewVariant(w.Val)
+					req.NodesToWrite = append(req.NodesToWrite, &ua.WriteValue{NodeID: ids[w.Node], AttributeID: ua.AttributeIDValue,
+						Value: &ua.DataValue{EncodingMask: ua.DataValueValue, Value: va}})
+					if mon[w.Node] > 0 {
+						nmonW++
+					}
+				}
+				if nmonW > 100 {
+					batchWide = true
+					classes["one-WriteRequest-changes->100-monitored-nodes"] = true
+				}
+				ctx, cancel := opCtx()
+				resp, e := writers[0].Write(ctx, req)
+				cancel()
+				if e == nil {
+					for _, stc := range resp.Results {
+						if stc != ua.StatusOK {
+							e = stc
+						}
+					}
+				}
+				if e != nil {
+					return res, infra("batch write of %d nodes: %v", len(ws), e)
+				}
 			}
 		case "pause":
 			time.Sleep(time.Duration(st.Ms) * time.Millisecond)
@@ -641,7 +737,7 @@ func execute(c Case, fresh bool) (res result, err error) {
 	default:
 		classes["messages>=50"] = true
 	}
-	res.nontriv = multiW && col.written > 0
+	res.nontriv = (multiW || batchWide) && col.written > 0
 	nmon, unwrittenReadded := 0, false
 	for n := 0; n < c.Vars; n++ {
 		if mon[n] > 0 {
@@ -657,7 +753,14 @@ func execute(c Case, fresh bool) (res result, err error) {
 	}
 	classes[fmt.Sprintf("monitored-at-end=%d", min(nmon, 4))] = true
 	classes["flavour="+c.Flavour] = true
-	classes[fmt.Sprintf("vars=%d", c.Vars)] = true
+	if c.Vars > 100 {
+		classes["vars>100(wide)"] = true
+		if nmon > 100 {
+			classes["monitored-at-end>100"] = true
+		}
+	} else {
+		classes[fmt.Sprintf("vars=%d", c.Vars)] = true
+	}
 	for k := range classes {
 		res.classes = append(res.classes, k)
 	}
